@@ -182,6 +182,32 @@ Theorem C09_iarpls_safe_std_antitone : forall minf scale std r1 r2 : R,
 Proof. exact iarpls_full_antitone. Qed.
 Print Assumptions C09_iarpls_safe_std_antitone.
 
+(* ---- the two-loop hosts (brpls, pspline_brpls in 1-D and 2-D; goldindec): the bookkeeping that
+   tools/gen_loops.py (GenNested) extracts on every run passes the conditions of the two-level skeleton
+   (C01/Nested.v); the generator itself refuses an outer stop test that compares with anything but
+   tol_2 / tol_3 or reads the inner loop's exit_early flag ---- *)
+From PB Require C01.Nested C01.NestedProofs gen.GenNested.
+
+Theorem C09_two_loop_source_checked :
+  forallb (fun p => Nested.nested_ok (snd p)) GenNested.nested_descs = true.
+Proof. vm_compute. reflexivity. Qed.
+Print Assumptions C09_two_loop_source_checked.
+
+(* the documented early exit of the inner loop ends the outer loop in that very iteration *)
+Theorem C09_two_loop_early_exit_ends_outer : forall (St D : Type) (istep : nat -> nat -> St -> St * Nested.ires D)
+    (ostep : nat -> St -> bool -> list D * bool * St) (n : Nested.ndesc) (m m2 : BinNums.Z),
+  Nested.nested_ok n = true ->
+  forall fuel i s jmax t s1 j t1, Nested.n_early n = true -> (i < Nested.obudget n m2)%nat ->
+  Nested.inner St D istep n m m2 (Nested.ibudget n m) 0 i s t = Some (s1, j, true, t1) ->
+  exists x, Nested.outer St D istep ostep n m m2 (S fuel) i s jmax t = Some x /\ Nested.x_i x = i.
+Proof.
+  intros St D istep ostep n m m2 Hok fuel i s jmax t s1 j t1 He.
+  assert (Hv : Nested.n_early n = false -> forall i j s, snd (istep i j s) <> Nested.IEarly)
+    by (intros Hf; rewrite Hf in He; discriminate).
+  exact (NestedProofs.early_ends_outer St D istep ostep n m m2 Hok Hv fuel i s jmax t s1 j t1 He).
+Qed.
+Print Assumptions C09_two_loop_early_exit_ends_outer.
+
 Example C09_rules_nonvacuous :
   0 < drpls_w Num_R 10 1 (-1) 0 < 1 /\ asls_w Num_R (/ 100) 0 0 = 1 - / 100.
 Proof.
